@@ -250,3 +250,30 @@ Fixpoint ground_iter (n : nat) (del : list entry) : list id :=
   end.
 
 Definition groundedb (del : list entry) (x : id) : bool := memN x (ground_iter (length del) del).
+
+(** ** observable trace: deliveries and releases in the order they happen.  [events_of] zips the
+    operations with the outputs of the [Next]/[Drain] operations (one output each). *)
+Inductive event := EDel (x : id) (ds : list id) | ERel (x : id).
+
+Definition out_events (o : out) : list event :=
+  match o with
+  | ONext (Some x) => [ERel x]
+  | ONext None => []
+  | ODrain l => map ERel l
+  end.
+
+Fixpoint events_of (ops : list op) (outs : list out) : list event :=
+  match ops with
+  | [] => []
+  | Deliver x ds :: r => EDel x ds :: events_of r outs
+  | _ :: r =>
+      match outs with
+      | [] => []
+      | o :: outs' => out_events o ++ events_of r outs'
+      end
+  end.
+
+Definition dels (tr : list event) : list entry :=
+  flat_map (fun e => match e with EDel x ds => [(x, ds)] | ERel _ => [] end) tr.
+Definition rels (tr : list event) : list id :=
+  flat_map (fun e => match e with EDel _ _ => [] | ERel x => [x] end) tr.
